@@ -97,6 +97,11 @@ class Ctx:
             self.case_features["npint_args"] = True
         # ... and in a `strided_args` case every ndarray handed to pyttb (bare or inside a list / tuple) is a strided, non-contiguous
         # view with the same values: what an array means does not depend on how its buffer is laid out
+        # ... in a `seq_args` case every short one-dimensional integer array (mode lists, permutations, ranks) is passed as the plain
+        # list or tuple a caller would write; a form the signature does not admit may be rejected (tagged), an accepted one must behave
+        self.seqform = case.get("seq_args")
+        if self.seqform:
+            self.case_features["seq_args"] = self.seqform
         self.strided = bool(case.get("strided_args"))
         if self.strided:
             self.case_features["strided_args"] = True
@@ -157,9 +162,16 @@ class Ctx:
             for k, a in kw.items():
                 named[f"kw_{k}"] = a
             snap = Snapshot(named)
+        orig_args, orig_kw = args, kw
+        retyped = False
         if getattr(self, "npint", False):
             args = tuple(_npintify(a) for a in args)
             kw = {k: _npintify(v) for k, v in kw.items()}
+            retyped = True
+        if getattr(self, "seqform", None):
+            args = tuple(_seqify(a, self.seqform) for a in args)
+            kw = {k: _seqify(v, self.seqform) for k, v in kw.items()}
+            retyped = True
         if getattr(self, "strided", False):
             args = tuple(_stridify(a) for a in args)
             kw = {k: _stridify(v) for k, v in kw.items()}
@@ -170,13 +182,17 @@ class Ctx:
             raise
         except BaseException as e:  # noqa: BLE001
             out = Outcome(False, None, e, traceback.format_exc(limit=-6))
-            if getattr(self, "npint", False) and isinstance(e, (AssertionError, TypeError, ValueError, IndexError, KeyError)):
-                # a NumPy-typed integer may be rejected where the signature says `int`: not judged (the same case runs with Python ints
-                # elsewhere); what is judged is that an *accepted* call keeps every promise
-                self.tag("npint-args-rejected:" + op)
-                if snap is not None:
-                    self._mutsan_after(op, snap, out, _inplace, _share_ok)
-                raise CaseAbort()
+            if retyped and isinstance(e, (AssertionError, TypeError, ValueError, IndexError, KeyError, AttributeError)):
+                # a NumPy-typed integer / a plain list may be rejected where the signature says `int` / `ndarray`: tagged, and the call is
+                # issued again in its original form so that the case loses nothing; what is judged is that an *accepted* call keeps
+                # every promise
+                self.tag("retyped-args-rejected:" + op)
+                try:
+                    out = Outcome(True, fn(*orig_args, **orig_kw))
+                except (KeyboardInterrupt, SystemExit, MemoryError):
+                    raise
+                except BaseException as e2:  # noqa: BLE001
+                    out = Outcome(False, None, e2, traceback.format_exc(limit=-6))
         if snap is not None:
             self._mutsan_after(op, snap, out, _inplace, _share_ok)
         return out
@@ -226,6 +242,13 @@ class Ctx:
         for p in probs:
             self.fail(op, "ILLFORMED:" + _illformed_class(p), p, **features)
         return not probs
+
+
+def _seqify(x, form):
+    if isinstance(x, np.ndarray) and x.ndim == 1 and 0 < x.size <= 8 and x.dtype.kind in "iu":
+        vals = [int(v) for v in x]
+        return vals if form == "list" else tuple(vals)
+    return x
 
 
 def _stridify(x, depth=0):
